@@ -22,7 +22,7 @@
        generated input: that statement is exercised by the differential run and the oracle only (missing: the invariant
        relating versions, coherency states and memory contents through start/end_transfer_ownership).  *)
 From Coq Require Import ZArith List Bool.
-From PV Require Import Coherency.CoherencyDefs GPU.GPUDefs GPU.GPUSpec GPU.GPUProofs.
+From PV Require Import Coherency.CoherencyDefs GPU.GPUDefs GPU.GPUSpec GPU.GPUProofs GPU.GPUPushout.
 Import ListNotations.
 Local Open Scope Z_scope.
 
@@ -57,6 +57,25 @@ Theorem C43_stage_in_moves_source_value : forall st g f st' s cps, stage_in st g
   (cps = [(fd f, s, g)] /\ val_at st' (fd f) g = val_at st (fd f) s /\
    forall e i, (e <> fd f \/ i <> g) -> val_at st' e i = val_at st e i).
 Proof. exact stage_in_value. Qed.
+
+(* ---- a successor on another rank is served from the newest version (post-kernel sequence, all successor lists) ---- *)
+(* parsec_gpu_task_update_pushout (the walk of iterate_successors with parsec_gpu_pushout_remote_successor, including its
+   early STOP) sets the pushout bit of flow i exactly when the upper layer asked for it or the flow is written and one of its
+   successors lives on another rank - for every list of successors of every flow, in every enumeration order *)
+Theorem C43_pushout_decision : forall fl succs i, memb i (pushout_bits fl succs) = needs_pushout fl succs i.
+Proof. exact pushout_bits_spec. Qed.
+(* then kernel_pop, the device-to-host copies and kernel_epilog leave the host copy - the copy the communication engine
+   sends, MPI being unable to send from device memory - with the version and the content of the device copy *)
+Theorem C43_remote_successor_served_from_newest : forall st g fl succs i f c0 cg,
+  (1 <= g)%nat -> NoDup (map fd fl) ->
+  nth_error fl i = Some f -> writes (fm f) = true -> has_remote (nth i succs []) = true ->
+  copy_at st (fd f) 0 = Some c0 -> copy_at st (fd f) g = Some cg ->
+  (0 < length (vals (get_dat st (fd f))))%nat ->
+  let st' := post_kernel st g fl succs in
+  exists c0' cg', copy_at st' (fd f) 0 = Some c0' /\ copy_at st' (fd f) g = Some cg' /\
+                  ver c0' = ver cg /\ ver cg' = ver cg /\ cst c0' = SHARED /\
+                  val_at st' (fd f) 0 = val_at st (fd f) g /\ val_at st' (fd f) g = val_at st (fd f) g.
+Proof. exact remote_successor_served_from_newest. Qed.
 
 (* ---- refutations of the value clauses (witnesses replayed on the real code: corpus/C43) ---- *)
 Definition R d := mkflow d MR false.
@@ -115,6 +134,8 @@ Print Assumptions C43_eviction_victim_idle_clean.
 Print Assumptions C43_reserve_spares_busy_and_dirty.
 Print Assumptions C43_capacity_respected.
 Print Assumptions C43_stage_in_moves_source_value.
+Print Assumptions C43_pushout_decision.
+Print Assumptions C43_remote_successor_served_from_newest.
 Print Assumptions C43_reads_see_last_writer_refuted.
 Print Assumptions C43_newest_version_kept_refuted.
 Print Assumptions C43_stage_in_source_newest_refuted.
@@ -129,6 +150,16 @@ Example C43_reserve_nonvacuous :
   lru (get_dev st 1) = [1%nat; 2%nat] /\
   exists st', reserve st 1 [R 0; R 3] = Some (st', [1%nat; 2%nat]).
 Proof. vm_compute. split; [reflexivity|]. eexists. reflexivity. Qed.
+(* a local successor enumerated before a remote one (the layout {0,1}), next to a flow with local successors only:
+   the first flow is pushed out, the second is not *)
+Example C43_pushout_nonvacuous :
+  let fl := [mkflow 0 MX false; mkflow 1 MX false] in
+  let succs := [[0%nat; 1%nat]; [0%nat; 0%nat]] in
+  map fpo (with_pushout fl succs) = [true; false] /\
+  (let tr := fst (prun_s 2 1 2 [(mktask 1 fl, succs)]) in
+   map (fun t => (val_at (tr_st t) 0 0 =? val_at (tr_st t) 0 1, val_at (tr_st t) 1 0 =? val_at (tr_st t) 1 1)) tr
+   = [(true, false)]).
+Proof. vm_compute. split; reflexivity. Qed.
 (* a program under memory pressure that obeys the "through the host" discipline and is executed correctly *)
 Example C43_through_host_nonvacuous :
   let ts := [G 0 [R 0; R 1]; G 0 [Xp 2]; Cpu [X 2]; G 0 [R 3; R 2]; G 0 [R 0; Xp 1]; Cpu [X 1]; G 0 [R 1; R 2]] in
